@@ -118,6 +118,26 @@ func C09Programs() []string {
 		"s := \"abc\"\nt := s\nt = t + \"d\"\nu := s[0:2]\nprint s t u\n",
 		"a := [1 2 3]\nfor i := range 3\n    a[i] = i\nend\nprint a\nm := {}\nfor i := range 3\n    m[sprint i] = i\nend\nprint m\nfirst := 0\nfor i := range 3\n    if i == 0\n        first = i\n    end\nend\nprint first\n",
 	)
+	// fresh containers, systematically: every producing expression over a non-empty, an empty, a nested and an any
+	// array — the result is updated and observed, then the operand is updated and observed
+	for _, decl := range []string{"a := [1 2 3]\ne:[]num\n", "a := [[1] [2 3]]\ne:[][]num\n", "a:[]any\na = [1 \"x\" [2]]\ne:[]any\n"} {
+		elem, grow := "99", "e = e + [99]"
+		if strings.Contains(decl, "[[1]") {
+			elem, grow = "[99]", "e = e + [[99]]"
+		}
+		if strings.Contains(decl, "any") {
+			grow = "e = e + a[0:1]"
+		}
+		for _, p := range []string{"a[:]", "a[0:]", "a[:3]", "a[0:2]", "a[1:]", "a[-2:]", "a[:-1]", "a + e", "e + a", "a + []", "[] + a", "(e + e) + a", "a + a", "e + a + e",
+			"a * 1", "a * 2", "(a + e) * 1", "(a[:])[:]", "(a + e)[0:]"} {
+			out = append(out, decl+"b := "+p+"\nprint (len b)\nb[0] = "+elem+"\nprint a b e\na[1] = "+elem+"\nprint a b e\n"+grow+"\nprint a b e\n")
+		}
+		// the accumulate idiom: the first concatenation has an empty left operand
+		out = append(out, decl+"acc := e\nfor i := range 2\n    acc = acc + a\n    acc[0] = "+elem+"\n    print i a acc e\nend\n")
+		out = append(out, decl+"rows := [a a[:]]\nflat := e\nfor row := range rows\n    flat = flat + row\nend\nflat[0] = "+elem+"\nprint rows flat a e\n")
+	}
+	// strings are values: every producing expression, then the operand is rebound
+	out = append(out, "s := \"aéz\"\nt := s[:]\nu := s + \"\"\nv := \"\" + s\nw := s[0:]\ns = \"q\"\nprint s t u v w\nt = t + \"!\"\nprint s t u v w\n")
 	return out
 }
 
@@ -274,6 +294,23 @@ func C10Programs() []string {
 		"m := {a:1 b:2 c:3}\nfor k := range m\n    del m k\n    m[k] = 5\n    print k m\nend\n",
 		"for i := range 3 0 -1\n    print i\nend\nfor i := range 0 1 0.25\n    print i\nend\n",
 	)
+	// `for ... range` visits exactly the code points of a string, the elements of an array, the keys of a map:
+	// every kind of content (empty, ASCII, 2-, 3- and 4-byte characters, combining marks), with the count and the
+	// position checked inside the loop, with break / return from the inner loop, and without a loop variable
+	for _, str := range []string{"", "abc", "añb", "x€y", "🦊!", "Hallöchen 👋🌍", "e\u0301", "世界", "a\u00a0b"} {
+		q := strconv.Quote(str)
+		out = append(out,
+			"s := "+q+"\nn := 0\nfor ch := range s\n    print n ch (ch == s[n]) (len ch)\n    n = n + 1\nend\nprint n (len s) (n == (len s))\n",
+			"n := 0\nfor range "+q+"\n    n = n + 1\nend\nprint n (len "+q+")\n",
+			"func find:num s:string t:string\n    i := 0\n    for ch := range s\n        if ch == t\n            return i\n        end\n        i = i + 1\n    end\n    return -1\nend\nprint (find "+q+" \"b\") (find "+q+" \"!\") (find "+q+" \"🌍\") (find "+q+" \"界\")\n",
+			"for a := range "+q+"\n    for b := range "+q+"\n        if a == b\n            break\n        end\n        print a b\n    end\nend\n")
+	}
+	for _, lit := range []string{"[]", "[1]", "[1 2 3]", "[[1] [] [2 3]]", "[\"a\" \"é\"]"} {
+		out = append(out, "a := "+lit+"\nn := 0\nfor e := range a\n    print n e\n    n = n + 1\nend\nprint n (len a)\nfor range a\n    n = n + 1\nend\nprint n\n")
+	}
+	for _, lit := range []string{"{}", "{a:1}", "{b:2 a:1 c:3}", "{z:[1] y:[]}"} {
+		out = append(out, "m := "+lit+"\nn := 0\nfor k := range m\n    print n k m[k]\n    n = n + 1\nend\nprint n (len m)\nfor range m\n    n = n + 1\nend\nprint n\n")
+	}
 	return out
 }
 
